@@ -215,6 +215,119 @@ def add_decoy_read(case):
                               "sample": case["samples"][0], "flag": 0, "mapq": 60})
 
 
+PHASE_FMT_DEFS = {"PS": '##FORMAT=<ID=PS,Number=1,Type=Integer,Description="Phase set identifier">',
+                  "HP": '##FORMAT=<ID=HP,Number=.,Type=String,Description="Phasing haplotype identifier">'}
+
+
+def force_missing_by_column(rng, case, positions=("first", "middle", "last")):
+    """A missing genotype at every wanted position of the VCF column order: for `first` / `middle` / `last` a variant is
+    chosen (distinct ones) at which the FAMILY MEMBER that comes first / in the middle / last among the family's columns
+    gets `./.` (or the haploid `.`).  Call after the sample order is final.  Returns {variant index: column position}."""
+    fam = [s for s in case["samples"] if any(s in t for t in case["trios"])]
+    n = len(case["variants"])
+    free = [i for i in range(n) if all(case["gt"][s][i] not in ("./.", ".", ".|.") for s in fam)]
+    rng.shuffle(free)
+    out = {}
+    for where in positions:
+        if not free or len(fam) < 2:
+            break
+        k = {"first": 0, "last": len(fam) - 1}.get(where)
+        if k is None:
+            if len(fam) < 3:
+                continue
+            k = rng.randrange(1, len(fam) - 1)
+        i = free.pop()
+        case["gt"][fam[k]][i] = rng.choice(["./.", "./.", "./.", "."])
+        out[i] = where
+    return out
+
+
+def add_input_phase(rng, case, who="all", enc="PS", frac=0.9):
+    """The input VCF ALREADY carries phase information (e.g. the output of an earlier phasing run, of another tool, or a
+    merge of such files): case["inphase"] = {"enc": .., "calls": {sample: [None | {"GT": text, "PS": int, "HP": text}]}}.
+    who: "all" members / "some" (a random non-empty proper subset of the samples) / a list of sample names.
+    enc: "PS" (phased GT + PS), "HP" (unphased sorted GT + HP), "GT" (phased GT, no PS column at all),
+         "mixed" (per sample one of PS / HP: FORMAT GT:PS:HP).
+    Every record kind gets phase: heterozygous calls (either orientation, true or not, in 1-3 phase sets per sample with
+    ids that need not be a position of the set), homozygous calls (`1|1` with a PS), calls of records with a Mendelian
+    conflict or with a missing genotype in ANOTHER member, and the missing call itself (`.|.`, or `./.` with a left-over
+    PS value).  The GT text in case["gt"] stays the unphased truth the oracle is computed from."""
+    samples = list(case["samples"])
+    if who == "all":
+        chosen = samples
+    elif who == "some":
+        chosen = rng.sample(samples, rng.randrange(1, len(samples))) if len(samples) > 1 else samples
+    else:
+        chosen = list(who)
+    n = len(case["variants"])
+    calls = {s: [None] * n for s in samples}
+    encs = {}
+    for s in chosen:
+        e = rng.choice(["PS", "HP"]) if enc == "mixed" else enc
+        encs[s] = e
+        cuts = sorted(rng.sample(range(1, n), min(rng.randrange(0, 3), max(0, n - 1)))) if n > 1 else []
+        block_of, b = [], 0
+        for i in range(n):
+            if b < len(cuts) and i == cuts[b]:
+                b += 1
+            block_of.append(b)
+        ids = {}
+        for i in range(n):
+            if block_of[i] not in ids:
+                ids[block_of[i]] = rng.choice([case["variants"][i]["pos"] + 1, case["variants"][i]["pos"] + 1, rng.randrange(1, 100000)])
+        for i in range(n):
+            g = case["gt"][s][i]
+            ps = ids[block_of[i]]
+            if rng.random() > frac:
+                continue
+            if g in ("./.", "."):
+                if e == "HP":
+                    continue
+                # the missing call itself: phased-missing `.|.` and / or a PS value left on it
+                c = {"GT": ".|." if (g == "./." and rng.random() < 0.4) else g}
+                if e == "PS" and rng.random() < 0.5:
+                    c["PS"] = ps
+                calls[s][i] = c
+                continue
+            a, b2 = (int(x) for x in g.replace("|", "/").split("/"))
+            if a == b2:
+                if e != "HP" and rng.random() < 0.5:
+                    calls[s][i] = {"GT": f"{a}|{b2}"}
+                    if e == "PS":
+                        calls[s][i]["PS"] = ps
+                continue
+            if rng.random() < 0.5:
+                a, b2 = b2, a
+            if e == "HP":
+                lo, hi = sorted((a, b2))
+                # HP: `<set>-<k>` per allele of the (sorted) GT: allele j lies on haplotype k
+                calls[s][i] = {"GT": f"{lo}/{hi}", "HP": f"{ps}-1,{ps}-2" if (a, b2) == (lo, hi) else f"{ps}-2,{ps}-1"}
+            else:
+                calls[s][i] = {"GT": f"{a}|{b2}"}
+                if e == "PS":
+                    calls[s][i]["PS"] = ps
+    case["inphase"] = {"enc": enc, "who": sorted(chosen), "encs": encs, "calls": calls}
+    return case["inphase"]
+
+
+def phase_format_keys(case):
+    ip = case.get("inphase")
+    if not ip:
+        return []
+    used = {k for cs in ip["calls"].values() for c in cs if c for k in c if k != "GT"}
+    return [k for k in ("PS", "HP") if k in used]
+
+
+def phased_call(case, s, i, base=None):
+    """the call dict of sample s at variant i for the input VCF: base fields, GT text (pre-phased if the case says so)"""
+    c = dict(base or {})
+    c["GT"] = case["gt"][s][i]
+    ip = case.get("inphase")
+    if ip and ip["calls"].get(s) and ip["calls"][s][i]:
+        c.update(ip["calls"][s][i])
+    return c
+
+
 def write_case(case, d, prefix="in", phased_input=None):
     """writes FASTA, BAM, VCF (+ PED, + genetic map); returns dict of paths"""
     os.makedirs(d, exist_ok=True)
@@ -230,11 +343,12 @@ def write_case(case, d, prefix="in", phased_input=None):
              for n in names for r in case["reads"]]
     sim.write_bam(bam, contigs, reads, [("rg_" + s, s) for s in case["samples"]])
     recs = []
+    pkeys = phase_format_keys(case)
     for n in names:
         for i, v in enumerate(case["variants"]):
-            calls = [{"GT": case["gt"][s][i]} for s in case["samples"]]
-            recs.append({"chrom": n, "pos": v["pos"], "ref": v["ref"], "alts": [v["alt"]], "calls": calls, "format": ["GT"]})
-    sim.write_vcf(vcf, contigs, case["samples"], recs)
+            calls = [phased_call(case, s, i) for s in case["samples"]]
+            recs.append({"chrom": n, "pos": v["pos"], "ref": v["ref"], "alts": [v["alt"]], "calls": calls, "format": ["GT"] + pkeys})
+    sim.write_vcf(vcf, contigs, case["samples"], recs, fmt_defs={k: PHASE_FMT_DEFS[k] for k in pkeys})
     out = {"fasta": fa, "bam": bam, "vcf": vcf}
     if case.get("ped"):
         ped = os.path.join(d, prefix + ".ped")
